@@ -17,5 +17,5 @@ CONSTANTS a, b, c
 MCIds == {a, b, c}
 Symm == Permutations(MCIds)
 MCReallocNodes == {{}, {1}, {2}}
-MCReallocTypes == {{}, {"PMEM"}, {"DRAM"}}
+MCReallocTypes == {{}, {"PMEM"}, {"DRAM"}, {"DRAM", "HBM"}}
 =============================================================================
